@@ -154,6 +154,7 @@ impl Model for {name} {{
     fn ty() -> String {{ format!("(legacy {{}})", <{inner} as Model>::ty()) }}
     fn to_model(&self) -> String {{ self.0.to_model() }}
     fn gen(r: &mut Rng, size: usize) -> Self {{ {name}(<Option<{inner}> as Model>::gen(r, size)) }}
+    fn max_slot() -> usize {{ <Option<{inner}> as Model>::max_slot() }}
 }}
 """.format(name=name, inner=inner.rust, m=m))
         self.derived.discard(name)
@@ -229,8 +230,12 @@ impl Model for {name} {{
         {name} {{ {gens} }}
     }}
     fn symmetric() -> bool {{ {sym} }}
+    fn max_slot() -> usize {{
+        let v: Vec<usize> = vec![std::mem::size_of::<Self>(), {slots}];
+        v.into_iter().max().unwrap()
+    }}
 }}
-""".format(name=name, decl="\n".join(decl),
+""".format(name=name, decl="\n".join(decl), slots=", ".join("<%s as Model>::max_slot()" % (("Option<%s>" % t.rust) if "with" in fl else t.rust) for t, fl in fields) or "0",
            tys=", ".join(e for _, e in ser_fields), dtys=", ".join(e for _, e in de_fields),
            vals=", ".join("self.%s.to_model()" % f for f, _ in ser_fields),
            dvals=", ".join("self.%s.to_model_dec()" % f for f, _ in de_fields),
@@ -276,6 +281,7 @@ impl Model for {name} {{
     fn to_model_dec(&self) -> String {{ {live}.to_model_dec() }}
     fn gen(r: &mut Rng, size: usize) -> Self {{ {ctor} }}
     fn symmetric() -> bool {{ <{inner} as Model>::symmetric() }}
+    fn max_slot() -> usize {{ std::cmp::max(std::mem::size_of::<Self>(), <{inner} as Model>::max_slot()) }}
 }}
 """.format(name=name, decl=decl, inner=inner.rust, live=live, ctor=ctor))
         self.note(name, [inner])
@@ -323,10 +329,15 @@ impl Model for {name} {{
         }}
     }}
     fn symmetric() -> bool {{ true {syms} }}
+    fn max_slot() -> usize {{
+        let v: Vec<usize> = vec![std::mem::size_of::<Self>(), {slots}];
+        v.into_iter().max().unwrap()
+    }}
 }}
 """.format(name=name, behaviour=behaviour, decl=decl, tys=tys, head=head, arms=arms, darms=darms,
            garms=garms, n=len(variants),
-           syms="".join(" && <%s as Model>::symmetric()" % t.rust for t in variants)))
+           syms="".join(" && <%s as Model>::symmetric()" % t.rust for t in variants),
+           slots=", ".join("<%s as Model>::max_slot()" % t.rust for t in variants)))
         self.note(name, variants, union=(behaviour == 'union'))
         return self.add(T(name, False, sym=all(t.sym for t in variants), default=False,
                           depth=1 + max(t.depth for t in variants)))
@@ -460,6 +471,7 @@ impl<A: Encode + Decode + Model, B: Encode + Decode + Model> Model for Gen2<A, B
     fn to_model_dec(&self) -> String { format!("(c {} {} {})", self.a.to_model_dec(), self.b.to_model_dec(), self.c.to_model_dec()) }
     fn gen(r: &mut Rng, size: usize) -> Self { Gen2 { a: A::gen(r, size / 2), b: <Vec<B>>::gen(r, size / 2), c: B::gen(r, size / 2) } }
     fn symmetric() -> bool { A::symmetric() && B::symmetric() }
+    fn max_slot() -> usize { std::cmp::max(std::mem::size_of::<Self>(), std::cmp::max(A::max_slot(), B::max_slot())) }
 }
 """)
     g.derived.add("Gen2")
